@@ -242,7 +242,13 @@ func instrumentFile(p *packages.Package, f *ast.File, fe *fileEdits, st *stats) 
 			case *ast.GoStmt:
 				st.Warnings = append(st.Warnings, site(x.Pos())+": go statement inside package spec is not modelled by the scheduler")
 			case *ast.SendStmt:
-				st.Warnings = append(st.Warnings, site(x.Pos())+": channel send inside package spec is not modelled by the scheduler")
+				found = true
+				return false
+			case *ast.UnaryExpr:
+				if x.Op == token.ARROW {
+					found = true
+					return false
+				}
 			}
 			return true
 		})
@@ -342,7 +348,42 @@ func instrumentFile(p *packages.Package, f *ast.File, fe *fileEdits, st *stats) 
 				fe.edits = append(fe.edits, edit{off(n.Body.Lbrace) + 1, off(n.Body.Lbrace) + 1, fmt.Sprintf(" verifStep(%q); ", name), 0})
 				st.Steps++
 			}
+		case *ast.SelectStmt:
+			st.Warnings = append(st.Warnings, site(n.Pos())+": select statement inside package spec is not modelled by the scheduler")
+		case *ast.RangeStmt:
+			if t := info.TypeOf(n.X); t != nil {
+				if _, isChan := t.Underlying().(*types.Chan); isChan {
+					st.Warnings = append(st.Warnings, site(n.Pos())+": range over a channel inside package spec is not modelled by the scheduler")
+				}
+			}
+		case *ast.SendStmt:
+			// ---------------------------------------------------------------- R2 channel modelling
+			fe.edits = append(fe.edits, edit{off(n.Pos()), off(n.End()), fmt.Sprintf("verifSend(%s, %s, %q)", text(n.Chan), text(n.Value), site(n.Pos())), 1})
+			st.Locks++
+			return false
+		case *ast.AssignStmt:
+			// v, ok := <-ch
+			if len(n.Lhs) == 2 && len(n.Rhs) == 1 {
+				if u, ok := n.Rhs[0].(*ast.UnaryExpr); ok && u.Op == token.ARROW {
+					fe.edits = append(fe.edits, edit{off(u.Pos()), off(u.End()), fmt.Sprintf("verifRecv2(%s, %q)", text(u.X), site(u.Pos())), 1})
+					st.Locks++
+					return false
+				}
+			}
+		case *ast.UnaryExpr:
+			if n.Op == token.ARROW {
+				fe.edits = append(fe.edits, edit{off(n.Pos()), off(n.End()), fmt.Sprintf("verifRecv(%s, %q)", text(n.X), site(n.Pos())), 1})
+				st.Locks++
+				return false
+			}
 		case *ast.CallExpr:
+			if id, ok := n.Fun.(*ast.Ident); ok && id.Name == "close" && len(n.Args) == 1 {
+				if _, isBuiltin := info.Uses[id].(*types.Builtin); isBuiltin {
+					fe.edits = append(fe.edits, edit{off(n.Pos()), off(n.End()), fmt.Sprintf("verifClose(%s)", text(n.Args[0])), 1})
+					st.Locks++
+					return true
+				}
+			}
 			// ---------------------------------------------------------------- R2 lock modelling
 			sel, ok := n.Fun.(*ast.SelectorExpr)
 			if !ok {
@@ -371,6 +412,14 @@ func instrumentFile(p *packages.Package, f *ast.File, fe *fileEdits, st *stats) 
 				repl = fmt.Sprintf("verifRWRLock(%s, %q)", addr, site(n.Pos()))
 			case "RWMutex.RUnlock":
 				repl = fmt.Sprintf("verifRWRUnlock(%s)", addr)
+			case "WaitGroup.Add":
+				if len(n.Args) == 1 {
+					repl = fmt.Sprintf("verifWGAdd(%s, %s)", addr, text(n.Args[0]))
+				}
+			case "WaitGroup.Done":
+				repl = fmt.Sprintf("verifWGAdd(%s, -1)", addr)
+			case "WaitGroup.Wait":
+				repl = fmt.Sprintf("verifWGWait(%s, %q)", addr, site(n.Pos()))
 			case "Once.Do":
 				if len(n.Args) == 1 {
 					// replace only the head of the call: the argument may be a function literal
@@ -597,6 +646,131 @@ func verifOnceDo(o *sync.Once, f func()) {
 		defer h(false)
 	}
 	o.Do(f)
+}
+
+// channel operations of the package are polled, so that a task that cannot proceed parks in the
+// scheduler (blocked on the channel) instead of inside the Go runtime. Rendezvous on unbuffered
+// channels cannot be polled from both sides: sends only succeed on buffered channels or when a
+// real receiver waits (none does under the scheduler) - the instrumenter's users are close-only
+// and buffered channels.
+
+func verifRecv[T any](ch <-chan T, site string) T {
+	h := VerifHooks.Block
+	if h == nil {
+		return <-ch
+	}
+	for {
+		select {
+		case v := <-ch:
+			if r := VerifHooks.Release; r != nil {
+				r(ch)
+			}
+			return v
+		default:
+		}
+		h(ch, site)
+	}
+}
+
+func verifRecv2[T any](ch <-chan T, site string) (T, bool) {
+	h := VerifHooks.Block
+	if h == nil {
+		v, ok := <-ch
+		return v, ok
+	}
+	for {
+		select {
+		case v, ok := <-ch:
+			if r := VerifHooks.Release; r != nil {
+				r(ch)
+			}
+			return v, ok
+		default:
+		}
+		h(ch, site)
+	}
+}
+
+func verifSend[T any](ch chan<- T, v T, site string) {
+	h := VerifHooks.Block
+	if h == nil {
+		ch <- v
+		return
+	}
+	for {
+		select {
+		case ch <- v:
+			if r := VerifHooks.Release; r != nil {
+				r(ch)
+			}
+			return
+		default:
+		}
+		h(ch, site)
+	}
+}
+
+func verifClose[T any](ch chan T) {
+	close(ch)
+	if r := VerifHooks.Release; r != nil {
+		r(ch)
+	}
+}
+
+// WaitGroup: a shadow counter tells whether Wait would block.
+var verifWG struct {
+	mu    sync.Mutex
+	addr  [64]*sync.WaitGroup
+	count [64]int
+}
+
+func verifWGAdd(wg *sync.WaitGroup, n int) {
+	verifWG.mu.Lock()
+	slot := -1
+	for i := range verifWG.addr {
+		if verifWG.addr[i] == wg {
+			slot = i
+			break
+		}
+		if slot < 0 && verifWG.addr[i] == nil {
+			slot = i
+		}
+	}
+	zero := false
+	if slot >= 0 {
+		verifWG.addr[slot] = wg
+		verifWG.count[slot] += n
+		if verifWG.count[slot] <= 0 {
+			verifWG.addr[slot], verifWG.count[slot] = nil, 0
+			zero = true
+		}
+	}
+	verifWG.mu.Unlock()
+	wg.Add(n)
+	if zero {
+		if r := VerifHooks.Release; r != nil {
+			r(wg)
+		}
+	}
+}
+
+func verifWGWait(wg *sync.WaitGroup, site string) {
+	h := VerifHooks.Block
+	for h != nil {
+		verifWG.mu.Lock()
+		pending := false
+		for i := range verifWG.addr {
+			if verifWG.addr[i] == wg && verifWG.count[i] > 0 {
+				pending = true
+			}
+		}
+		verifWG.mu.Unlock()
+		if !pending {
+			break
+		}
+		h(wg, site)
+	}
+	wg.Wait()
 }
 
 // VerifNewSimpleCache returns a fresh instance of the package's own cache implementation,
